@@ -1575,6 +1575,9 @@ func (ctx Ctx) varDeclStmt(s *ast.DeclStmt) coq.Binding {
 	if len(decl.Specs) > 1 {
 		ctx.unsupported(s, "multiple declarations in one var statement")
 	}
+	if len(decl.Specs) == 0 {
+		ctx.unsupported(s, "empty var statement")
+	}
 	// guaranteed to be a *Ast.ValueSpec due to decl.Tok
 	//
 	// https://golang.org/pkg/go/ast/#GenDecl
@@ -2207,6 +2210,9 @@ func (ctx Ctx) maybeDecls(d ast.Decl) []coq.Decl {
 		case token.TYPE:
 			if len(d.Specs) > 1 {
 				ctx.noExample(d, "multiple specs in a type decl")
+			}
+			if len(d.Specs) == 0 {
+				return nil
 			}
 			spec := d.Specs[0].(*ast.TypeSpec)
 			ctx.dep.addName(spec.Name.Name)
